@@ -4,21 +4,38 @@
 
 #include <etl/_config/all.hpp>
 
+#include <etl/_cmath/copysign.hpp>
 #include <etl/_concepts/integral.hpp>
+#include <etl/_limits/numeric_limits.hpp>
 #include <etl/_type_traits/is_constant_evaluated.hpp>
 #include <etl/_type_traits/is_same.hpp>
 
 namespace etl {
 
 namespace detail {
+/// Rounds to the nearest integer, halfway cases to even: the default rounding mode,
+/// which is the one a constant expression is evaluated in.
 template <typename T>
 [[nodiscard]] constexpr auto rint_fallback(T arg) noexcept -> T
 {
-    if constexpr (sizeof(T) <= sizeof(long)) {
-        return static_cast<T>(static_cast<long>(arg));
-    } else {
-        return static_cast<T>(static_cast<long long>(arg));
+    // Every value of magnitude >= 2^(digits-1) is an integer. NaN and the infinities are returned unchanged.
+    constexpr auto limit = T(1) / etl::numeric_limits<T>::epsilon();
+    if (not(arg > -limit and arg < limit)) {
+        return arg;
     }
+
+    auto const whole = static_cast<long long>(arg); // truncates; fits because |arg| < 2^63
+    auto result      = static_cast<T>(whole);       // exact
+    auto const frac  = arg - result;                // exact, has the sign of arg
+    auto const odd   = whole % 2 != 0;
+    if (frac > T(0.5) or (frac == T(0.5) and odd)) {
+        result += T(1);
+    } else if (frac < T(-0.5) or (frac == T(-0.5) and odd)) {
+        result -= T(1);
+    }
+
+    // a zero result keeps the sign of the argument
+    return etl::copysign(result, arg);
 }
 
 template <typename T>
